@@ -32,6 +32,16 @@ thread_local! {
   static IN_SCHED: Cell<u32> = const { Cell::new(0) };
 }
 
+/// An operation that makes this many allocations without returning is in an endless loop (the
+/// largest legitimate operation makes well under a million; this many take a few seconds).
+pub const ALLOC_BUDGET: u64 = 40_000_000;
+/// the allocation yield period of the run in progress (set by the executor)
+/// wall-clock limits: one operation (legitimately milliseconds), one whole run (legitimately well
+/// under a second); the watchdog period caps them when it is set lower (replays)
+pub const OP_WALL_LIMIT: Duration = Duration::from_secs(10);
+pub const RUN_WALL_LIMIT: Duration = Duration::from_secs(60);
+pub static RUN_ALLOC_PERIOD: std::sync::atomic::AtomicU32 = std::sync::atomic::AtomicU32::new(0);
+
 pub struct YieldAlloc;
 
 unsafe impl std::alloc::GlobalAlloc for YieldAlloc {
@@ -200,6 +210,8 @@ struct Th {
   prio: i64,
   last_ran_step: u64,
   os_tid: u64,
+  op_alloc_yields: u64,
+  op_started: std::time::Instant,
 }
 
 #[derive(Clone, Debug, Default)]
@@ -543,6 +555,13 @@ impl Sim {
       st.threads[me].op_steps += 1;
     } else {
       st.stats.alloc_yields += 1;
+      st.threads[me].op_alloc_yields += 1;
+      let period = RUN_ALLOC_PERIOD.load(Ordering::Relaxed).max(1) as u64;
+      if st.threads[me].op_alloc_yields.saturating_mul(period) > ALLOC_BUDGET {
+        let why = format!("step budget exceeded: thread {} operation {} keeps allocating without returning (more than {} allocations)", me, st.threads[me].op, ALLOC_BUDGET);
+        st.set_abort(why);
+        return false;
+      }
     }
     if st.threads[me].op_steps > st.stats.max_op_steps {
       st.stats.max_op_steps = st.threads[me].op_steps;
@@ -578,6 +597,8 @@ impl Sim {
       if let Some(st) = g.as_mut() {
         st.threads[me].op = op;
         st.threads[me].op_steps = 0;
+        st.threads[me].op_alloc_yields = 0;
+        st.threads[me].op_started = std::time::Instant::now();
       }
     }
     self.yield_point(me, Ev::OpStart, 255)
@@ -749,7 +770,7 @@ impl Sim {
     let mut prios: Vec<i64> = (0..nthreads as i64).map(|x| x + 1).collect();
     rng.shuffle(&mut prios);
     for i in 0..nthreads {
-      threads.push(Th { status: Status::Runnable, thread: None, go: Arc::new(AtomicBool::new(false)), op: 0, op_steps: 0, prio: prios[i], last_ran_step: 0, os_tid: 0 });
+      threads.push(Th { status: Status::Runnable, thread: None, go: Arc::new(AtomicBool::new(false)), op: 0, op_steps: 0, prio: prios[i], last_ran_step: 0, os_tid: 0, op_alloc_yields: 0, op_started: std::time::Instant::now() });
     }
     let mut pct_change: Vec<u64> = Vec::new();
     if let Policy::Pct(d) = &policy {
@@ -843,17 +864,29 @@ impl Sim {
     }
     // wait for completion
     let mut watchdog_fired = false;
+    let mut fire_reason: &str;
     {
       // progress watchdog: fires when no yield point has been reached for `watchdog`
       let mut g = self.lock();
       let mut last_step = u64::MAX;
       let mut last_change = std::time::Instant::now();
+      let run_started = std::time::Instant::now();
+      fire_reason = "reached no yield point";
       loop {
         let (done, step) = g.as_ref().map(|s| (s.finished == s.threads.len(), s.step.wrapping_add(OS_PROGRESS.load(Ordering::Relaxed)))).unwrap_or((true, 0));
         if done {
           break;
         }
         let now = std::time::Instant::now();
+        // an operation that keeps reaching yield points but has been running for longer than the
+        // watchdog period (legitimate ones take milliseconds) is crawling through an endless or
+        // absurdly long loop: the same verdict as no progress at all
+        let crawling = g.as_ref().map(|s| !s.free_run && s.current < s.threads.len() && s.threads[s.current].status != Status::Finished && now.duration_since(s.threads[s.current].op_started) >= OP_WALL_LIMIT.min(watchdog)).unwrap_or(false) || (!os_policy && now.duration_since(run_started) >= RUN_WALL_LIMIT.min(watchdog * 6));
+        if crawling {
+          watchdog_fired = true;
+          fire_reason = "an operation (or the run as a whole) keeps reaching yield points but has exceeded its wall-clock limit";
+          break;
+        }
         if step != last_step {
           last_step = step;
           last_change = now;
@@ -866,7 +899,11 @@ impl Sim {
             if !st.free_run && st.current < st.threads.len() {
               let tid = st.threads[st.current].os_tid;
               let state = std::fs::read_to_string(format!("/proc/self/task/{}/stat", tid)).ok().and_then(|t| t.rsplit(')').next().map(|r| r.trim().chars().next().unwrap_or('?'))).unwrap_or('?');
-              if state == 'S' || state == 'D' {
+              // asleep in the kernel: blocked on a primitive outside the seam. Or, after a full
+              // second, still running without reaching a yield point: possibly spinning on
+              // something a parked thread would provide. Either way: hand the run to the OS; a
+              // real endless loop stays stuck and is reported by the watchdog as before.
+              if state == 'S' || state == 'D' || now.duration_since(last_change) >= Duration::from_millis(1000) {
                 st.free_run = true;
                 st.wake_all();
                 FREE_RUN_EVENTS.fetch_add(1, Ordering::SeqCst);
@@ -884,7 +921,7 @@ impl Sim {
       let st = g.as_ref().unwrap();
       let cur = st.current;
       let op = if cur < st.threads.len() { st.threads[cur].op } else { 0 };
-      return RunResult { trace: st.trace.clone(), trace_owner: st.trace_owner.clone(), log_hash: st.log_hash, log: st.log.clone(), abort: Some(format!("watchdog: thread {} operation {} reached no yield point for {:?} (not blocked on a lock)", cur, op, watchdog)), diverged: st.diverged, stats: st.stats.clone(), watchdog: true, sched_states: Vec::new(), lock_addrs: st.lock_addr.clone(), free_run: st.free_run };
+      return RunResult { trace: st.trace.clone(), trace_owner: st.trace_owner.clone(), log_hash: st.log_hash, log: st.log.clone(), abort: Some(format!("watchdog: thread {} operation {}: {} (watchdog {:?}, operation limit {:?}, run limit {:?}; not blocked on a lock of the seam)", cur, op, fire_reason, watchdog, OP_WALL_LIMIT.min(watchdog), RUN_WALL_LIMIT.min(watchdog * 6))), diverged: st.diverged, stats: st.stats.clone(), watchdog: true, sched_states: Vec::new(), lock_addrs: st.lock_addr.clone(), free_run: st.free_run };
     }
     for h in handles {
       let _ = h.join();
